@@ -168,7 +168,7 @@ def run(tier, seed, jobs) -> Result:
                                 "depth": 3 if tier == "quick" else 4, "label": "two sessions, INBOX(3) one \\Deleted"},
                                {"cfg_ref": ("vf.props.c05", "hcfg_div", []), "alphabet": alphabet_div(tier),
                                 "depth": 3 if tier == "quick" else 5, "label": "two sessions, INBOX(4) with MH keys != UIDs, one \\Deleted"}],
-                 ("C05",), jobs, seed, [], time_budget=60 if tier == "quick" else 1200)
+                 ("C05",), jobs, seed, [], time_budget=60 if tier == "quick" else 900)
     res = Result(level="exploration")
     res.failures = fails + hres.failures
     res.coverage = {
